@@ -132,6 +132,43 @@ def net_session(rng, nblocks, depth):
     return "net 1 0 " + " ; ".join(ops)
 
 
+USED_HEAD = "rf 1 1 new z rf24 0 ; z enter ; "
+_FRESH = {}
+
+
+def used_radio_session(rng, depth):
+    """an object constructed (and entered) on a radio that another object has configured arbitrarily before"""
+    ops = []
+    for _ in range(rng.randint(3, depth)):
+        op = gen_rf.config_op(rng, "z")
+        if "carrier_wave" not in op:
+            ops.append(op)
+    kind = rng.choice(["rf24", "rf24", "ble"])
+    return USED_HEAD + " ; ".join(ops + ["z exit", f"new a {kind} 0", "a enter", "a get channel"])
+
+
+def judge_used_radio(l, io):
+    """settings made through one object never leak into another object's configuration: the registers after the new
+    object's first `__enter__` are those it has on a fresh chip"""
+    names, ops = l.split(" ; "), parse_out(io)
+    kind = next(n.split()[2] for n in names if n.startswith("new a "))
+    if kind not in _FRESH:
+        r = parse_out(run_line(f"rf 1 1 new a {kind} 0 ; a enter"))[1]["radios"][0]
+        # the pipe and TX addresses are *adopted* from the radio by RF24.__init__ (it reads them into its shadows: the driver
+        # has no default addresses of its own), so they are whatever the radio held - by design, not a leak
+        _FRESH[kind] = {k: r.get(k) for k in CFG_KEYS if k not in ("a0", "a1", "an", "tx")}
+    for k, (name, o) in enumerate(zip(names, ops)):
+        if name == "a enter" and o["radios"]:
+            if o["res"].startswith("exc="):
+                return Finding(l, f"op {k}: entering the new object's block raised {o['res'][4:]}", {"op_index": k})
+            r = o["radios"][0]
+            for key, want in _FRESH[kind].items():
+                if r.get(key) != want:
+                    return Finding(l, f"op {k}: a {kind} object constructed after another object had configured the radio enters its "
+                                      f"block with register {key}={r.get(key)}; on a fresh chip it is {want}", {"op_index": k})
+    return None
+
+
 class C09(PropCheck):
     prop = "C09"
     rule = ("interleavings of `with` blocks of 2-3 objects (RF24 and FakeBLE; in a second block network / mesh nodes of every class, "
@@ -151,6 +188,7 @@ class C09(PropCheck):
         cs = [(session(rng, nb, d), "with-interleavings") for _ in range(n)]
         cs += [(session(rng, nb, 4, overlap=True), "overlapping-blocks") for _ in range(n // 4)]
         cs += [(net_session(rng, nb, max(3, d // 2)), "node-with-interleavings") for _ in range(n // 2)]
+        cs += [(used_radio_session(rng, d), "constructed-on-used-radio") for _ in range(n // 2)]
         return cs
 
     def nontrivial(self, line, io):
@@ -160,6 +198,7 @@ class C09(PropCheck):
         """the Python rendering of the spec, cross-checked by the Lean one (Spec.Restored / Spec.PoweredDown
         through the driver ops `specc09 …`): a re-entry / exit the Lean spec rejects is a finding, too"""
         out = self.judge_py(triples)
+        out += [f for f in (judge_used_radio(l, io) for l, io, mo in triples if l.startswith(USED_HEAD) and " ; new a " in l) if f]
         seen = {f.case for f in out}
         lines, where = [], []
         for l, io, mo in triples:
